@@ -364,6 +364,7 @@ func c04(c *ev.Ctx) {
 			}
 		}
 	})
+	c04SameReference(c)
 	c04HostileInChild(c)
 	// a slice / map field is handed out by reference from the per-run field table: no
 	// built-in applied to it may change what the field shows afterwards
@@ -588,4 +589,82 @@ func c04HostileInChild(c *ev.Ctx) {
 		start = last + 1
 	}
 	c.Count("hostile_object_cases", len(cases))
+}
+
+type c04Rec struct {
+	Name  string
+	Count int
+	Tags  []string
+	Meta  map[string]interface{}
+	Ratio float64
+}
+
+// c04SameReference: a host keeps one record (pointer to struct, map) and changes it between
+// runs: every run sees the current contents - changed values, deleted and added keys - also
+// when the script reads the fields inside user functions and loops.
+func c04SameReference(c *ev.Ctx) {
+	scripts := []string{
+		`return [Name, Count, Tags, Meta, Ratio];`,
+		`function rd() { return [Name, Count]; } a = rd(); return [a, Name, len(Tags), Meta.k, Extra];`,
+		`r = []; foreach t1 in Tags { r = [t1, Count]; } return [r, Name, Extra];`,
+		`if (Count > 1) { return Name + string(Count); } return [Name, keys(Meta)];`,
+	}
+	for si, script := range scripts {
+		for _, noOpt := range []bool{false, true} {
+			id := fmt.Sprintf("same-reference/%d/%v", si, noOpt)
+			if !c.Want(id) {
+				continue
+			}
+			// one used evaluator per record, so that consecutive runs get the very same reference
+			usedA, err := eng.New(script, eng.Options{NoOptimize: noOpt})
+			if err != nil {
+				continue
+			}
+			usedB, _ := eng.New(script, eng.Options{NoOptimize: noOpt})
+			useds := []*eng.Evaluator{usedA, usedB}
+			rec := &c04Rec{Name: "one", Count: 1, Tags: []string{"a"}, Meta: map[string]interface{}{"k": 1}, Ratio: 0.5}
+			doc := map[string]interface{}{"Name": "one", "Count": 1, "Tags": []interface{}{"a"}, "Meta": map[string]interface{}{"k": 1}, "Ratio": 0.5}
+			for step := 0; step < 6; step++ {
+				switch step {
+				case 1:
+					rec.Name, rec.Count = "two", 2
+					doc["Name"], doc["Count"] = "two", 2
+				case 2:
+					rec.Tags = append(rec.Tags, "b")
+					rec.Meta["k"] = "changed"
+					doc["Tags"] = []interface{}{"a", "b"}
+					doc["Meta"].(map[string]interface{})["k"] = "changed"
+				case 3:
+					rec.Meta = nil
+					rec.Tags = nil
+					delete(doc, "Meta")
+					delete(doc, "Tags")
+					doc["Extra"] = "added"
+				case 4:
+					rec.Name, rec.Ratio = "", -1.5
+					doc["Name"] = ""
+					delete(doc, "Extra")
+				case 5:
+					*rec = c04Rec{Name: "five", Count: 5, Tags: []string{"z"}, Meta: map[string]interface{}{"k": 5}}
+					for k := range doc {
+						delete(doc, k)
+					}
+					doc["Count"] = 5
+				}
+				for oi, obj := range []interface{}{rec, doc} {
+					fresh, err := eng.New(script, eng.Options{NoOptimize: noOpt})
+					if err != nil {
+						continue
+					}
+					got, want := useds[oi].Exec(obj), fresh.Exec(obj)
+					c.Case(fmt.Sprint(id, step, oi), true)
+					if got.Desc() != want.Desc() || errText(got.Err) != errText(want.Err) {
+						c.Violation(id, "a run does not see the current contents of the object it is given", map[string]interface{}{
+							"summary": fmt.Sprintf("%s (noopt=%v), the same %s given again after the host changed it (step %d): the used evaluator gives %s %s, a fresh one %s %s", script, noOpt, []string{"pointer to a struct", "map"}[oi], step, got.Desc(), errText(got.Err), want.Desc(), errText(want.Err)), "script": script})
+						return
+					}
+				}
+			}
+		}
+	}
 }
